@@ -10,6 +10,7 @@ import (
 	"path/filepath"
 	"sort"
 	"strings"
+	"syscall"
 	"time"
 
 	"github.com/FollowTheProcess/msg"
@@ -365,7 +366,7 @@ func (a *App) clean(spokfile *file.SpokFile) error {
 			}
 			_, err = os.Stat(resolved)
 			if err != nil {
-				if !errors.Is(err, fs.ErrNotExist) {
+				if !notThere(err) {
 					// If it doesn't exist we can ignore the error
 					return err
 				}
@@ -386,7 +387,7 @@ func (a *App) clean(spokfile *file.SpokFile) error {
 			}
 			_, err = os.Stat(resolved)
 			if err != nil {
-				if !errors.Is(err, fs.ErrNotExist) {
+				if !notThere(err) {
 					// If it doesn't exist we can ignore the error
 					return err
 				}
@@ -414,13 +415,19 @@ func (a *App) clean(spokfile *file.SpokFile) error {
 
 	for _, file := range toRemove {
 		err := os.RemoveAll(file)
-		if err != nil {
+		if err != nil && !notThere(err) {
 			return fmt.Errorf("Could not remove %s: %w", file, err)
 		}
 		fmt.Fprintf(a.stream.Stdout, "Removed %s\n", file)
 	}
 	msg.Fsuccess(a.stream.Stdout, "Done")
 	return nil
+}
+
+// notThere reports whether err says that a path does not exist: either plainly, or because
+// something on the way to it is a regular file (so nothing can exist below it).
+func notThere(err error) bool {
+	return errors.Is(err, fs.ErrNotExist) || errors.Is(err, syscall.ENOTDIR)
 }
 
 // containsSpokfile reports whether removing path would remove the spokfile, that is whether
